@@ -148,4 +148,3 @@ package fscache
 //@   ensures result1 == nil && result0 != nil && (exists j int :: 0 <= j && j < len(opts) && isEncOption(opts[j])) ==> result0.enc != nil     # name: requested-encryption-is-on-or-open-fails
 //@   loop 0 invariant -1 <= rangeindex && rangeindex < len(opts) && c != nil && fresh(c) && c.connTimeout >= 0
 //@   loop 0 invariant forall j int :: 0 <= j && j <= rangeindex && isEncOption(opts[j]) ==> c.enc != nil
-
